@@ -162,7 +162,7 @@ def _report(rep, recs_path, verdicts, what, scripts=None):
         rep.violation(key, detail, replay)
 
 
-def _samples(path, idx=(0, 777, 4242)):
+def _samples(path, idx=(1500, 12000, 30000)):
     out = []
     with open(path) as f:
         for i, line in enumerate(f):
